@@ -255,6 +255,7 @@ func runC19(c *core.Ctx) {
 		}
 		c.Floor("codec.errdrop", 3)
 	}
+	checkFullRead(c)
 }
 
 // frameConstants: constants of type FrameType emitted by the encoder (stored into Frame.frameType) and
@@ -972,4 +973,67 @@ func sameBaseValue(a, b ssa.Value) bool {
 		return true
 	}
 	return sameBase(a, b)
+}
+
+// checkFullRead (codec.fullread): a Read may return fewer bytes than asked for. A decoder read whose byte count is
+// thrown away is only safe when it asks for a single byte; multi-byte fields must be read with io.ReadFull (or the
+// count must be used).
+func checkFullRead(c *core.Ctx) {
+	prog := c.Prog
+	n := 0
+	for _, fn := range prog.ModuleFuncs("ast/codec", "plugin") {
+		for _, b := range fn.Blocks {
+			for _, in := range b.Instrs {
+				call, ok := in.(*ssa.Call)
+				if !ok {
+					continue
+				}
+				name := ""
+				var recvV ssa.Value
+				if call.Common().IsInvoke() {
+					name = call.Common().Method.Name()
+					recvV = call.Common().Value
+				} else if cal := call.Common().StaticCallee(); cal != nil && cal.Signature.Recv() != nil && len(call.Common().Args) > 0 {
+					name = cal.Name()
+					recvV = call.Common().Args[0]
+				}
+				if name != "Read" || call.Common().Signature().Results().Len() != 2 {
+					continue
+				}
+				n++
+				countUsed := false
+				if call.Referrers() != nil {
+					for _, r := range *call.Referrers() {
+						if ex, ok := r.(*ssa.Extract); ok && ex.Index == 0 && ex.Referrers() != nil && len(*ex.Referrers()) > 0 {
+							countUsed = true
+						}
+					}
+				}
+				key := fmt.Sprintf("%s|Read#%d", core.FnName(fn), n)
+				if countUsed {
+					c.Discharge("codec.fullread", key, in.Pos(), "the byte count is used")
+					continue
+				}
+				// a LimitReader of exactly one byte
+				one := false
+				for x := range core.BackSlice(recvV) {
+					if cl, ok := x.(*ssa.Call); ok {
+						if cal := cl.Common().StaticCallee(); cal != nil && cal.Name() == "LimitReader" {
+							if k, isK := core.ConstIntValue(cl.Common().Args[1]); isK && k == 1 {
+								one = true
+							}
+						}
+					}
+				}
+				if one {
+					c.Discharge("codec.fullread", key, in.Pos(), "single byte read")
+				} else {
+					c.Report("codec.fullread", key, in.Pos(), core.FnName(fn)+" reads a multi-byte field with one Read and ignores how many bytes arrived: at a buffer boundary or on a pipe the field is taken partly from stale memory and the frame stream falls out of sync (use io.ReadFull)")
+				}
+			}
+		}
+	}
+	if n == 0 {
+		c.MissingAnchor("codec.fullread", "no Read call in ast/codec")
+	}
 }
